@@ -9,7 +9,8 @@
 (declare-fun running_b!9 () Int)
 (declare-fun total_b!10 () Int)
 (declare-fun t0!1 () Real)
-(declare-fun t!12 () Real)
+(declare-fun t_begin!12 () Real)
+(declare-fun t!13 () Real)
 (assert
  (>= completed_a!2 0))
 (assert
@@ -42,23 +43,25 @@
  (let (($x63 (<= running_b!9 0)))
  (not $x63)))
 (assert
+ (>= t_begin!12 t0!1))
+(assert
  (>= running_a!4 1))
 (assert
- (>= t!12 t0!1))
+ (>= t!13 t_begin!12))
 (assert
- (let ((?x41 (+ running_a!4 running_b!9)))
- (let ((?x79 (to_real ?x41)))
- (and (distinct ?x79 0.0) true))))
+ (let ((?x62 (+ running_a!4 running_b!9)))
+ (let ((?x84 (to_real ?x62)))
+ (and (distinct ?x84 0.0) true))))
 (assert
- (let (($x99 (= running_a!4 1)))
- (not $x99)))
+ (let (($x104 (= running_a!4 1)))
+ (not $x104)))
 (assert
- (let ((?x41 (+ running_a!4 running_b!9)))
-(let ((?x92 (- ?x41 1)))
-(let (($x105 (= ?x92 (+ ?x41 (- 1)))))
-(let ((?x91 (- running_a!4 1)))
-(let (($x103 (= ?x91 (+ running_a!4 (- 1)))))
-(let (($x85 (= completed_a!2 (+ completed_a!2 0))))
-(let (($x72 (and $x85 (= (+ failed_a!3 1) (+ failed_a!3 1)) $x103 $x105)))
-(not $x72)))))))))
+ (let ((?x62 (+ running_a!4 running_b!9)))
+(let ((?x97 (- ?x62 1)))
+(let (($x110 (= ?x97 (+ ?x62 (- 1)))))
+(let ((?x96 (- running_a!4 1)))
+(let (($x108 (= ?x96 (+ running_a!4 (- 1)))))
+(let (($x90 (= completed_a!2 (+ completed_a!2 0))))
+(let (($x111 (and $x90 (= (+ failed_a!3 1) (+ failed_a!3 1)) $x108 $x110)))
+(not $x111)))))))))
 (check-sat)
